@@ -1,5 +1,7 @@
 import M3d.Basic
 import M3d.Model.Transform
+import M3d.Model.SmartSqueeze
+import M3d.Model.Transform2
 /-!
 Line-protocol handler for C05.  Core-only; runs the models of `M3d/Model/Transform.lean` at `Rat`.
 
@@ -282,6 +284,234 @@ def handleXf (dim : Nat) (kind : String) (ws : List String) : Option String := d
       some (if model = s then s else s ++ " MODEL-NE-SPEC:" ++ model)
   | _ => none
 
+
+/-! ### the 2-D kinds: the same handlers over the native 2-D model (`M3d/Model/Transform2.lean`) -/
+namespace Two
+
+def pV (_dim : Nat) (_padZ : Q) : P (V2 Q) := fun ws => do
+  let (x, ws) ← pRat ws
+  let (y, ws) ← pRat ws
+  some (⟨x, y⟩, ws)
+
+def pM (_dim : Nat) : P (M2 Q) := fun ws => do
+  let (a, ws) ← pRat ws; let (b, ws) ← pRat ws; let (c, ws) ← pRat ws; let (d, ws) ← pRat ws
+  some (⟨a, b, c, d⟩, ws)
+
+mutual
+partial def pXf (dim : Nat) : P (Xf2 Q)
+  | "T" :: ws => do let (v, ws) ← pV dim 0 ws; some (.translate v, ws)
+  | "S" :: ws => do let (s, ws) ← pRat ws; some (.scale s, ws)
+  | "V" :: ws => do let (v, ws) ← pV dim 1 ws; some (.vecScale v, ws)
+  | "M" :: ws => do let (m, ws) ← pM dim ws; some (.matrix m, ws)
+  | "O" :: ws => do let (m, ws) ← pM dim ws; some (.ortho m, ws)
+  | "J" :: ws => do let (n, ws) ← pNat ws; pJoin dim n ws
+  | _ => none
+partial def pJoin (dim : Nat) : Nat → P (Xf2 Q)
+  | 0, ws => some (.jnil, ws)
+  | n + 1, ws => do
+      let (t, ws) ← pXf dim ws
+      let (r, ws) ← pJoin dim n ws
+      some (.jcons t r, ws)
+end
+
+
+
+def sV (_dim : Nat) (v : V2 Q) : String := s!"{showRat v.x} {showRat v.y}"
+
+def sM (_dim : Nat) (m : M2 Q) : String := showList showRat [m.a0, m.a1, m.a2, m.a3]
+
+def sB (dim : Nat) (b : V2 Q × V2 Q) : String := sV dim b.1 ++ " " ++ sV dim b.2
+
+partial def joinList : Xf2 Q → List (Xf2 Q)
+  | .jnil => []
+  | .jcons t r => t :: joinList r
+  | t => [t]
+
+partial def sXf (dim : Nat) : Xf2 Q → String
+  | .translate v => "T " ++ sV dim v
+  | .scale s => "S " ++ showRat s
+  | .vecScale v => "V " ++ sV dim v
+  | .matrix m => "M " ++ sM dim m
+  | .ortho m => "O " ++ sM dim m
+  | t =>
+      let l := joinList t
+      " ".intercalate (s!"J {l.length}" :: l.map (sXf dim))
+
+def sHit (dim : Nat) (h : Hit2 Q) : String := showRat h.scale ++ " " ++ sV dim h.normal
+
+
+
+/-- image of a direction under the linear part of an affine transform -/
+def linearPart (t : Xf2 Q) (d : V2 Q) : V2 Q := (t.apply d).sub (t.apply V2.zero)
+
+/-- unit outward normal demanded for the image surface: the normalised image of the normal under the
+linear part (for the similarity transforms `TransformCollider` accepts this is the normalised
+inverse-transpose image, see `M3d.C05.normal_inverse_transpose`). -/
+def specNormal (t : Xf2 Q) (n : V2 Q) : V2 Q := (linearPart t n).normalize sqrtQ
+
+def specHit (t : Xf2 Q) (h : Hit2 Q) : Hit2 Q := { scale := h.scale, normal := specNormal t h.normal, extra := h.extra }
+
+/-- the factor by which a similarity changes distances, measured on the model -/
+def specFactor (t : Xf2 Q) : Q := sqrtQ (linearPart t ⟨1, 0⟩).normSq
+
+
+
+def pHits (dim : Nat) : Nat → P (List (Hit2 Q))
+  | 0, ws => some ([], ws)
+  | n + 1, ws => do
+      let (s, ws) ← pRat ws
+      let (nv, ws) ← pV dim 0 ws
+      let (rest, ws) ← pHits dim n ws
+      some ({ scale := s, normal := nv, extra := 0 } :: rest, ws)
+
+def done {α} (r : α × List String) : Option α := if r.2.isEmpty then some r.1 else none
+
+def dummyCollider (hits : List (Hit2 Q)) : Collider2 Q :=
+  { lo := V2.zero, hi := V2.zero, hits := fun _ => hits, count := fun _ => hits.length,
+    first := fun _ => match hits with | [] => (⟨0, V2.zero, 0⟩, false) | h :: _ => (h, true),
+    circle := fun _ _ => false }
+
+/-- a collider known only through its answers on one ray / one sphere -/
+def tableCollider (r : Ray2 Q) (cnt : Nat) (hits : List (Hit2 Q)) (first : Hit2 Q × Bool)
+    (sc : V2 Q) (sr : Q) (sb : Bool) : Collider2 Q :=
+  { lo := V2.zero, hi := V2.zero,
+    hits := fun r' => if r' = r then hits else [⟨-1, V2.zero, 999⟩],
+    count := fun r' => if r' = r then cnt else 999,
+    first := fun r' => if r' = r then first else (⟨-1, V2.zero, 999⟩, true),
+    circle := fun c' r' => if c' = sc ∧ r' = sr then sb else !sb }
+
+def rcStr (dim : Nat) : RCResult2 Q → String
+  | .panic => "panic"
+  | .ok n calls =>
+      if calls.isEmpty then toString n else toString n ++ " " ++ "|".intercalate (calls.map (sHit dim))
+
+def handleXf (dim : Nat) (kind : String) (ws : List String) : Option String := do
+  match kind with
+  | "apply" =>
+      let (t, ws) ← pXf dim ws; let p ← done (← pV dim 0 ws)
+      some (sV dim (t.apply p))
+  | "bounds" =>
+      let (t, ws) ← pXf dim ws; let (lo, ws) ← pV dim 0 ws; let hi ← done (← pV dim 0 ws)
+      some (sB dim (t.applyBounds lo hi))
+  | "invdesc" =>
+      let t ← done (← pXf dim ws)
+      some (sXf dim t.inverse)
+  | "roundtrip" =>
+      let (t, ws) ← pXf dim ws; let p ← done (← pV dim 0 ws)
+      let spec := sV dim p ++ " " ++ sV dim p
+      let model := sV dim (t.inverse.apply (t.apply p)) ++ " " ++ sV dim (t.apply (t.inverse.apply p))
+      some (if model = spec then spec else spec ++ " MODEL-NE-SPEC:" ++ model)
+  | "encl" =>
+      let (t, ws) ← pXf dim ws; let (lo, ws) ← pV dim 0 ws; let (hi, ws) ← pV dim 0 ws; let p ← done (← pV dim 0 ws)
+      let b := t.applyBounds lo hi
+      some (if inBounds2 (t.apply p) b.1 b.2 then "1" else "1 MODEL-NE-SPEC:0")
+  | "appdist" =>
+      let (t, ws) ← pXf dim ws; let d ← done (← pRat ws)
+      some (showRat (t.applyDistance d))
+  | "dist" =>
+      let (t, ws) ← pXf dim ws; let (p, ws) ← pV dim 0 ws; let q ← done (← pV dim 0 ws)
+      match ratSqrt ((t.apply p).sub (t.apply q)).normSq, ratSqrt (p.sub q).normSq with
+      | some r, some d =>
+          let spec := showRat r ++ " " ++ showRat r
+          let model := showRat (t.applyDistance d)
+          some (if model = showRat r then spec else spec ++ " MODEL-NE-SPEC:" ++ model)
+      | _, _ => some "irrational"
+  | "solid" =>
+      let (t, ws) ← pXf dim ws; let (lo, ws) ← pV dim 0 ws; let (hi, ws) ← pV dim 0 ws
+      let (q, ws) ← pV dim 0 ws; let c ← done (← pNat ws)
+      let stub : Solid2 Q := { lo := lo, hi := hi, contains := fun x => if x = q then c == 1 else !(c == 1) }
+      let ts := transformSolid2 t stub
+      let spec := boolStr (c == 1)
+      let model := boolStr (ts.contains (t.apply q))
+      some ((if model = spec then spec else spec ++ " MODEL-NE-SPEC:" ++ model) ++ " " ++ sB dim (ts.lo, ts.hi))
+  | "solidr" =>
+      let (t, ws) ← pXf dim ws; let (lo, ws) ← pV dim 0 ws; let (hi, ws) ← pV dim 0 ws
+      let p ← done (← pV dim 0 ws)
+      let rect : Solid2 Q := { lo := lo, hi := hi, contains := fun x => inBounds2 x lo hi }
+      some (boolStr ((transformSolid2 t rect).contains p))
+  | "sdf" =>
+      let (t, ws) ← pXf dim ws; let (lo, ws) ← pV dim 0 ws; let (hi, ws) ← pV dim 0 ws
+      let (q, ws) ← pV dim 0 ws; let v ← done (← pRat ws)
+      let stub : SDF2 Q := { lo := lo, hi := hi, sdf := fun x => if x = q then v else v + 1000 }
+      let ts := transformSDF2 t stub
+      let spec := showRat (v * specFactor t)
+      let model := showRat (ts.sdf (t.apply q))
+      some ((if model = spec then spec else spec ++ " MODEL-NE-SPEC:" ++ model) ++ " " ++ sB dim (ts.lo, ts.hi))
+  | "mball" =>
+      let (t, ws) ← pXf dim ws; let (lo, ws) ← pV dim 0 ws; let (hi, ws) ← pV dim 0 ws
+      let (q, ws) ← pV dim 0 ws; let (mv, ws) ← pRat ws; let (d, ws) ← pRat ws; let bd ← done (← pRat ws)
+      let stub : Metaball2 Q := { lo := lo, hi := hi, field := fun x => if x = q then mv else mv + 1000,
+                                  distBound := fun x => if x = d then bd else bd + 1000 }
+      let tm := transformMetaball2 t stub
+      let spec := showRat mv ++ " " ++ showRat bd
+      let model := showRat (tm.field (t.apply q)) ++ " " ++ showRat (tm.distBound (d * specFactor t))
+      some ((if model = spec then spec else spec ++ " MODEL-NE-SPEC:" ++ model) ++ " " ++ sB dim (tm.lo, tm.hi))
+  | "vmball" =>
+      let (sc, ws) ← pV dim 1 ws; let (lo, ws) ← pV dim 0 ws; let (hi, ws) ← pV dim 0 ws
+      let (q, ws) ← pV dim 0 ws; let (mv, ws) ← pRat ws; let (d, ws) ← pRat ws
+      let (a, ws) ← pRat ws; let b ← done (← pRat ws)
+      let stub : Metaball2 Q := { lo := lo, hi := hi, field := fun x => if x = q then mv else mv + 1000,
+                                  distBound := fun x => a * x + b }
+      let vm := vecScaleMetaball2 stub sc
+      some (showRat (vm.field (q.mul sc)) ++ " " ++ showRat (vm.distBound d) ++ " " ++ sB dim (vm.lo, vm.hi))
+  | "inner" =>
+      let (t, ws) ← pXf dim ws; let (o, ws) ← pV dim 0 ws; let d ← done (← pV dim 0 ws)
+      let r := innerRay2 t.inverse ⟨o, d⟩
+      some (sV dim r.origin ++ " " ++ sV dim r.dir)
+  | "outer" =>
+      let (t, ws) ← pXf dim ws; let (hs, ws) ← pHits dim 1 ws; let _ ← done ((), ws)
+      let r : Ray2 Q := ⟨V2.zero, ⟨1, 0⟩⟩
+      match tcRayCollisions2 sqrtQ t (dummyCollider hs) r true with
+      | .ok _ calls => some ("|".intercalate (calls.map (sHit dim)))
+      | .panic => some "panic"
+  | "nilcb" =>
+      let (t, ws) ← pXf dim ws; let k ← done (← pNat ws)
+      let hs := List.replicate k (⟨1, ⟨1, 0⟩, 0⟩ : Hit2 Q)
+      some (rcStr dim (tcRayCollisions2 sqrtQ t (dummyCollider hs) ⟨V2.zero, ⟨1, 0⟩⟩ false))
+  | "sphin" =>
+      let (t, ws) ← pXf dim ws; let (c, ws) ← pV dim 0 ws; let (r, ws) ← pRat ws; let reply ← done (← pNat ws)
+      some (sV dim (t.inverse.apply c) ++ " " ++ showRat (t.inverse.applyDistance r) ++ " " ++ toString reply)
+  | "cbounds" =>
+      let (t, ws) ← pXf dim ws; let (lo, ws) ← pV dim 0 ws; let hi ← done (← pV dim 0 ws)
+      some (sB dim (t.applyBounds lo hi))
+  | "coll" =>
+      let mode ← ws.head?
+      let (t, ws) ← pXf dim (ws.drop 1)
+      let (o, ws) ← pV dim 0 ws; let (d, ws) ← pV dim 0 ws
+      let (o', ws) ← pV dim 0 ws; let (d', ws) ← pV dim 0 ws
+      let (cnt, ws) ← pNat ws; let (n, ws) ← pNat ws
+      let hs ← done (← pHits dim n ws)
+      let stub := tableCollider ⟨o', d'⟩ cnt hs (⟨0, V2.zero, 0⟩, false) V2.zero 0 false
+      let withCb := mode == "cb"
+      let spec : RCResult2 Q := .ok cnt (if withCb then hs.map (specHit t) else [])
+      let model := tcRayCollisions2 sqrtQ t stub ⟨o, d⟩ withCb
+      let s := rcStr dim spec
+      some (if rcStr dim model = s then s else s ++ " MODEL-NE-SPEC:" ++ rcStr dim model)
+  | "first" =>
+      let (t, ws) ← pXf dim ws
+      let (o, ws) ← pV dim 0 ws; let (d, ws) ← pV dim 0 ws
+      let (o', ws) ← pV dim 0 ws; let (d', ws) ← pV dim 0 ws
+      let (ok, ws) ← pNat ws
+      let hs ← done (← pHits dim ok ws)
+      let fst : Hit2 Q × Bool := match hs with | [] => (⟨0, V2.zero, 0⟩, false) | h :: _ => (h, true)
+      let stub := tableCollider ⟨o', d'⟩ 0 [] fst V2.zero 0 false
+      let render : Hit2 Q × Bool → String := fun r => if r.2 then "hit " ++ sHit dim r.1 else "miss"
+      let s := render (specHit t fst.1, fst.2)
+      let model := render (tcFirst2 sqrtQ t stub ⟨o, d⟩)
+      some (if model = s then s else s ++ " MODEL-NE-SPEC:" ++ model)
+  | "sphc" =>
+      let (t, ws) ← pXf dim ws
+      let (c, ws) ← pV dim 0 ws; let (r, ws) ← pRat ws
+      let (q, ws) ← pV dim 0 ws; let (rad, ws) ← pRat ws; let want ← done (← pNat ws)
+      let stub := tableCollider ⟨V2.zero, V2.zero⟩ 0 [] (⟨0, V2.zero, 0⟩, false) q rad (want == 1)
+      let s := boolStr (want == 1)
+      let model := boolStr (tcCircle2 t stub c r)
+      some (if model = s then s else s ++ " MODEL-NE-SPEC:" ++ model)
+  | _ => none
+
+
+end Two
+
 /-! ### matrices -/
 
 def pM2 : P (M2 Q) := fun ws => do
@@ -343,6 +573,241 @@ def handlePinch (ws : List String) : Option String := do
       some "1"
   | _ => none
 
+
+/-! ### `bits` mode: the same model at `Float`, numbers cross as 16-hex-digit IEEE bit patterns.
+`-0` is rendered as `+0` and every NaN as `nan` on both sides (`math.Min/Max/Abs` differ from the model's
+`if a ≤ b` only in the sign of a zero). -/
+
+abbrev F := Float
+
+def pFl : P F
+  | w :: ws => (floatOfHex w).map (·, ws)
+  | [] => none
+
+def sFl (x : F) : String :=
+  if x.isNaN then "nan" else if x == 0 then hexOfFloat 0 else hexOfFloat x
+
+def pVF : P (V3 F) := fun ws => do
+  let (x, ws) ← pFl ws; let (y, ws) ← pFl ws; let (z, ws) ← pFl ws
+  some (⟨x, y, z⟩, ws)
+
+def pMF : P (M3 F) := fun ws => do
+  let (a0, ws) ← pFl ws; let (a1, ws) ← pFl ws; let (a2, ws) ← pFl ws
+  let (a3, ws) ← pFl ws; let (a4, ws) ← pFl ws; let (a5, ws) ← pFl ws
+  let (a6, ws) ← pFl ws; let (a7, ws) ← pFl ws; let (a8, ws) ← pFl ws
+  some (⟨a0, a1, a2, a3, a4, a5, a6, a7, a8⟩, ws)
+
+mutual
+partial def pXfF : P (Xf F)
+  | "T" :: ws => do let (v, ws) ← pVF ws; some (.translate v, ws)
+  | "S" :: ws => do let (s, ws) ← pFl ws; some (.scale s, ws)
+  | "V" :: ws => do let (v, ws) ← pVF ws; some (.vecScale v, ws)
+  | "M" :: ws => do let (m, ws) ← pMF ws; some (.matrix m, ws)
+  | "O" :: ws => do let (m, ws) ← pMF ws; some (.ortho m, ws)
+  | "Q" :: ws => do
+      let (ax, ws) ← pNat ws
+      let (lo, ws) ← pFl ws; let (hi, ws) ← pFl ws; let (r, ws) ← pFl ws
+      some (.squeeze ax lo hi r, ws)
+  | "J" :: ws => do let (n, ws) ← pNat ws; pJoinF n ws
+  | _ => none
+partial def pJoinF : Nat → P (Xf F)
+  | 0, ws => some (.jnil, ws)
+  | n + 1, ws => do
+      let (t, ws) ← pXfF ws
+      let (r, ws) ← pJoinF n ws
+      some (.jcons t r, ws)
+end
+
+def sVF (v : V3 F) : String := s!"{sFl v.x} {sFl v.y} {sFl v.z}"
+def sMF (m : M3 F) : String := showList sFl [m.a0, m.a1, m.a2, m.a3, m.a4, m.a5, m.a6, m.a7, m.a8]
+def sBF (b : V3 F × V3 F) : String := sVF b.1 ++ " " ++ sVF b.2
+
+partial def joinListF : Xf F → List (Xf F)
+  | .jnil => []
+  | .jcons t r => t :: joinListF r
+  | t => [t]
+
+partial def sXfF : Xf F → String
+  | .translate v => "T " ++ sVF v
+  | .scale s => "S " ++ sFl s
+  | .vecScale v => "V " ++ sVF v
+  | .matrix m => "M " ++ sMF m
+  | .ortho m => "O " ++ sMF m
+  | .squeeze ax lo hi r => s!"Q {ax} {sFl lo} {sFl hi} {sFl r}"
+  | t =>
+      let l := joinListF t
+      " ".intercalate (s!"J {l.length}" :: l.map sXfF)
+
+/-- bits-mode kinds (all faithful: the Float run of the model of a Go method against the method). -/
+def handleBits (kind : String) (ws : List String) : Option String := do
+  match kind with
+  | "rotm3" =>
+      let (ax, ws) ← pVF ws; let (c, ws) ← pFl ws; let s ← done (← pFl ws)
+      some (sMF (rotation3 Float.sqrt ax c s))
+  | "rotm2" =>
+      let (c, ws) ← pFl ws; let s ← done (← pFl ws)
+      let m : M2 F := M2.rotation c s
+      some (showList sFl [m.a0, m.a1, m.a2, m.a3])
+  | "ortho3" =>
+      let ax ← done (← pVF ws)
+      let b := orthoBasis Float.sqrt ax
+      some (sVF b.1 ++ " " ++ sVF b.2)
+  | "fapply3" =>
+      let (t, ws) ← pXfF ws; let p ← done (← pVF ws)
+      some (sVF (t.apply p))
+  | "fbounds3" =>
+      let (t, ws) ← pXfF ws; let (lo, ws) ← pVF ws; let hi ← done (← pVF ws)
+      some (sBF (t.applyBounds lo hi))
+  | "finvdesc3" =>
+      let t ← done (← pXfF ws)
+      some (sXfF t.inverse)
+  | "fappdist3" =>
+      let (t, ws) ← pXfF ws; let d ← done (← pFl ws)
+      some (sFl (t.applyDistance d))
+  | "finner3" =>
+      let (t, ws) ← pXfF ws; let (o, ws) ← pVF ws; let d ← done (← pVF ws)
+      let r := innerRay t.inverse ⟨o, d⟩
+      some (sVF r.origin ++ " " ++ sVF r.dir)
+  | "fouter3" =>
+      let (t, ws) ← pXfF ws; let (sc, ws) ← pFl ws; let n ← done (← pVF ws)
+      let h := outerCollision Float.sqrt t ⟨sc, n, 0⟩
+      some (sFl h.scale ++ " " ++ sVF h.normal)
+  | "fsphin3" =>
+      let (t, ws) ← pXfF ws; let (c, ws) ← pVF ws; let r ← done (← pFl ws)
+      some (sVF (t.inverse.apply c) ++ " " ++ sFl (t.inverse.applyDistance r))
+  | "fsolidr3" =>
+      -- TransformSolid(t, Rect{lo,hi}): Contains(p), bounds, and the point handed to the wrapped solid
+      let (t, ws) ← pXfF ws; let (lo, ws) ← pVF ws; let (hi, ws) ← pVF ws; let p ← done (← pVF ws)
+      let rect : Solid F := { lo := lo, hi := hi, contains := fun x => inBounds x lo hi }
+      let ts := transformSolid t rect
+      some (boolStr (ts.contains p) ++ " " ++ sBF (ts.lo, ts.hi) ++ " " ++ sVF (t.inverse.apply p))
+  | "fpinch" =>
+      -- AxisPinch.Apply for an arbitrary Power: `math.Pow(t1, Power) = pw` is given for the one argument it is called with
+      let (ax, ws) ← pNat ws; let (lo, ws) ← pFl ws; let (hi, ws) ← pFl ws
+      let (t1, ws) ← pFl ws; let (pw, ws) ← pFl ws; let p ← done (← pVF ws)
+      let powF : F → F := fun x => if x == t1 then pw else (0 : F) / 0
+      some (sVF ((⟨ax, lo, hi⟩ : Pinch F).apply powF p))
+  | "fpinchinv" =>
+      let pw ← done (← pFl ws)
+      some (sFl (1 / pw))
+  | "fsdf3" =>
+      -- TransformSDF(t, stub returning v): value at p and the point handed to the wrapped SDF
+      let (t, ws) ← pXfF ws; let (lo, ws) ← pVF ws; let (hi, ws) ← pVF ws; let (p, ws) ← pVF ws; let v ← done (← pFl ws)
+      let ts := transformSDF t { lo := lo, hi := hi, sdf := fun _ => v }
+      some (sFl (ts.sdf p) ++ " " ++ sBF (ts.lo, ts.hi) ++ " " ++ sVF (t.inverse.apply p))
+  | _ => none
+
+
+/-! ### `SmartSqueeze.Transform` and `Mesh.Transform` (the vertex map of `MarchingCubesConj`) -/
+
+def pPairs : Nat → P (List (Q × Q))
+  | 0, ws => some ([], ws)
+  | n + 1, ws => do
+      let (a, ws) ← pRat ws; let (b, ws) ← pRat ws
+      let (rest, ws) ← pPairs n ws
+      some ((a, b) :: rest, ws)
+
+def pRats : Nat → P (List Q)
+  | 0, ws => some ([], ws)
+  | n + 1, ws => do
+      let (a, ws) ← pRat ws
+      let (rest, ws) ← pRats n ws
+      some (a :: rest, ws)
+
+/-- `smart <axis> <ratio> <pinchRange> <pinchPower> <min> <max> <nU> (a b)* <nP> p*` -/
+def handleSmart (ws : List String) : Option String := do
+  let (ax, ws) ← pNat ws
+  let (ratio, ws) ← pRat ws; let (prange, ws) ← pRat ws; let (ppow, ws) ← pRat ws
+  let (lo, ws) ← pRat ws; let (hi, ws) ← pRat ws
+  let (nu, ws) ← pNat ws; let (unsq, ws) ← pPairs nu ws
+  let (np, ws) ← pNat ws; let pinches ← done (← pRats np ws)
+  let pieces := smartPieces unsq pinches prange lo hi
+  let tok : Piece Q → String
+    | .squeeze a b => s!"Q {ax} {showRat a} {showRat b} {showRat ratio}"
+    | .pinch a b => s!"P {ax} {showRat a} {showRat b} {showRat ppow}"
+  some (" ".intercalate (s!"J {pieces.length}" :: pieces.map tok))
+
+/-- `meshxf3 <xf> <9 coordinates>`: `Mesh.Transform(t.Inverse())` on a one-triangle mesh = `conjBack` per vertex. -/
+def handleMeshXf (ws : List String) : Option String := do
+  let (t, ws) ← pXf 3 ws
+  let (a, ws) ← pV 3 0 ws; let (b, ws) ← pV 3 0 ws; let c ← done (← pV 3 0 ws)
+  some (sV 3 (conjBack t a) ++ " " ++ sV 3 (conjBack t b) ++ " " ++ sV 3 (conjBack t c))
+
+
+/-! ### 2-D bits mode -/
+
+def pV2F : P (V2 F) := fun ws => do
+  let (x, ws) ← pFl ws; let (y, ws) ← pFl ws
+  some (⟨x, y⟩, ws)
+
+def pM2F : P (M2 F) := fun ws => do
+  let (a, ws) ← pFl ws; let (b, ws) ← pFl ws; let (c, ws) ← pFl ws; let (d, ws) ← pFl ws
+  some (⟨a, b, c, d⟩, ws)
+
+mutual
+partial def pXf2F : P (Xf2 F)
+  | "T" :: ws => do let (v, ws) ← pV2F ws; some (.translate v, ws)
+  | "S" :: ws => do let (s, ws) ← pFl ws; some (.scale s, ws)
+  | "V" :: ws => do let (v, ws) ← pV2F ws; some (.vecScale v, ws)
+  | "M" :: ws => do let (m, ws) ← pM2F ws; some (.matrix m, ws)
+  | "O" :: ws => do let (m, ws) ← pM2F ws; some (.ortho m, ws)
+  | "J" :: ws => do let (n, ws) ← pNat ws; pJoin2F n ws
+  | _ => none
+partial def pJoin2F : Nat → P (Xf2 F)
+  | 0, ws => some (.jnil, ws)
+  | n + 1, ws => do
+      let (t, ws) ← pXf2F ws
+      let (r, ws) ← pJoin2F n ws
+      some (.jcons t r, ws)
+end
+
+def sV2F (v : V2 F) : String := s!"{sFl v.x} {sFl v.y}"
+
+partial def joinList2F : Xf2 F → List (Xf2 F)
+  | .jnil => []
+  | .jcons t r => t :: joinList2F r
+  | t => [t]
+
+partial def sXf2F : Xf2 F → String
+  | .translate v => "T " ++ sV2F v
+  | .scale s => "S " ++ sFl s
+  | .vecScale v => "V " ++ sV2F v
+  | .matrix m => "M " ++ showList sFl [m.a0, m.a1, m.a2, m.a3]
+  | .ortho m => "O " ++ showList sFl [m.a0, m.a1, m.a2, m.a3]
+  | t =>
+      let l := joinList2F t
+      " ".intercalate (s!"J {l.length}" :: l.map sXf2F)
+
+def handleBits2 (kind : String) (ws : List String) : Option String := do
+  match kind with
+  | "fapply2" =>
+      let (t, ws) ← pXf2F ws; let p ← done (← pV2F ws)
+      some (sV2F (t.apply p))
+  | "fbounds2" =>
+      let (t, ws) ← pXf2F ws; let (lo, ws) ← pV2F ws; let hi ← done (← pV2F ws)
+      let b := t.applyBounds lo hi
+      some (sV2F b.1 ++ " " ++ sV2F b.2)
+  | "finvdesc2" =>
+      let t ← done (← pXf2F ws)
+      some (sXf2F t.inverse)
+  | "fappdist2" =>
+      let (t, ws) ← pXf2F ws; let d ← done (← pFl ws)
+      some (sFl (t.applyDistance d))
+  | "finner2" =>
+      let (t, ws) ← pXf2F ws; let (o, ws) ← pV2F ws; let d ← done (← pV2F ws)
+      let r := innerRay2 t.inverse ⟨o, d⟩
+      some (sV2F r.origin ++ " " ++ sV2F r.dir)
+  | "fouter2" =>
+      let (t, ws) ← pXf2F ws; let (sc, ws) ← pFl ws; let n ← done (← pV2F ws)
+      let h := outerCollision2 Float.sqrt t ⟨sc, n, 0⟩
+      some (sFl h.scale ++ " " ++ sV2F h.normal)
+  | "fsolidr2" =>
+      let (t, ws) ← pXf2F ws; let (lo, ws) ← pV2F ws; let (hi, ws) ← pV2F ws; let p ← done (← pV2F ws)
+      let rect : Solid2 F := { lo := lo, hi := hi, contains := fun x => inBounds2 x lo hi }
+      let ts := transformSolid2 t rect
+      some (boolStr (ts.contains p) ++ " " ++ sV2F ts.lo ++ " " ++ sV2F ts.hi)
+  | _ => none
+
 def stripDim (k : String) : Option (String × Nat) :=
   if k.endsWith "3" then some ((k.dropEnd 1).toString, 3)
   else if k.endsWith "2" then some ((k.dropEnd 1).toString, 2)
@@ -353,9 +818,14 @@ def handleAll (ws : List String) : Option String :=
   | "mat3" :: rest => handleMat3 rest
   | "mat2" :: rest => handleMat2 rest
   | "pinch" :: rest => handlePinch rest
+  | "smart" :: rest => handleSmart rest
+  | "meshxf3" :: rest => handleMeshXf rest
   | k :: rest => do
+      if k.startsWith "bits." then
+        let b := (k.drop 5).toString
+        return ← (if b.endsWith "2" && b != "rotm2" then handleBits2 b rest else handleBits b rest)
       let (kind, dim) ← stripDim k
-      handleXf dim kind rest
+      if dim = 2 then Two.handleXf 2 kind rest else handleXf dim kind rest
   | [] => none
 
 end M3d.Drv.C05
